@@ -144,16 +144,25 @@ def pred_congruence(call, out):
     mine = float(np.mean([cm[i, perm[i]] for i in range(r)]))
     if abs(mine - val) > 1e-9:
         fails.append(("C20_congruence_is_max", f"value {val!r} is not the mean congruence {mine!r} of the returned matching {perm}"))
+    unique = False
     if r <= 7:
-        best = max(float(np.mean([cm[i, p[i]] for i in range(r)])) for p in itertools.permutations(range(r)))
+        scores = sorted(float(np.mean([cm[i, p[i]] for i in range(r)])) for p in itertools.permutations(range(r)))
+        best = scores[-1]
+        unique = r == 1 or scores[-2] < best - 1e-6      # the optimal matching is unique (no ties / near-ties)
         if val < best - 1e-9:
             fails.append(("C20_congruence_is_max", f"value {val!r} below the optimum {best!r} over all {math.factorial(r)} matchings"))
     if call.get("sigma") is not None:
         sigma = call["sigma"]
+        rec = [sigma.index(i) for i in range(r)]          # the recovering permutation: B[:, rec[i]] is a multiple of A[:, i]
+        rec_val = float(np.mean([cm[i, rec[i]] for i in range(r)]))
+        if abs(rec_val - 1) > 1e-9:
+            fails.append(("C20_harness_self_check", f"generator: recovering permutation {rec} has value {rec_val!r}"))
         if abs(val - 1) > 1e-9:
             fails.append(("C20_congruence_equiv_one", f"equivalent factor sets (sigma={sigma}) have congruence {val!r} != 1"))
-        if call.get("generic") and any(sigma[perm[i]] != i for i in range(r)):
-            fails.append(("C20_congruence_equiv_one", f"returned permutation {perm} does not recover sigma={sigma}"))
+        # two components of A may be collinear in every mode (few rows, many columns): then several matchings reach 1
+        # and any of them is a correct answer; the returned one must be THE recovering permutation only when it is unique
+        if unique and perm != rec:
+            fails.append(("C20_congruence_equiv_one", f"returned permutation {perm} is not the recovering permutation {rec} (sigma={sigma})"))
     return fails
 
 
